@@ -1,28 +1,28 @@
 /-!
-# Model of the ORDER of the state file (src/executors/bash_runner.template)
+# Model of the ORDER of the state file and of the hook that writes it (src/executors/bash_runner.template)
 
 `__scrut_persist_state` writes one shell script (`state`) that the next test case `source`s. bash
-reads a sourced file command by command, and a command is PARSED under the options in force at that
-moment: a function definition whose body uses extended patterns (`+(…)`, `!(…)`) is a syntax error
-unless `extglob` is set, and at a syntax error bash stops reading the file -- everything behind it
-(later functions, all variables, working directory, directory stack) is not restored.
+reads a sourced file command by command, and every command is PARSED and RUN under what the commands
+in front of it have set up. Four facts about bash decide in which order the state has to be written;
+they are the assumptions of this model, and harness/src/shellstate.rs runs each of them against real
+bash on every check (classes `function-extglob`, `alias-function-name`, `function-calls-alias-word`,
+`set-o-allexport`, stream `options-then-plain-exhaustive`):
 
-Only what matters for that is modelled: the `extglob` option, functions (with the one bit "needs
-extglob to be parsed") and variables (which stand for everything written behind the functions).
-`persist` is the order after fix e15e02e (recorded options, `shopt -s extglob`, functions, the
-recorded `extglob` again, variables); `persistOld` is the order before it.
-
-Two more facts about bash are modelled since fixes 296e2dd, 79ceed0 and 6fb091a:
-* `shopt -u extdebug` also switches `errtrace` and `functrace` off (and `-s` switches them on), so the
-  recorded `shopt` options have to be restored BEFORE the recorded `set -o` options (`errtrace` stands for
-  both); `persistSetFirst` is the order before fix 6fb091a.
+* a function definition whose body uses extended patterns (`+(…)`, `!(…)`) is a syntax error unless
+  `extglob` is set, and a function definition whose NAME is a known alias is one as well (the alias is
+  expanded into `name () {`); at a syntax error bash stops reading the file -- everything behind it is
+  not restored;
+* while `allexport` is set every variable that is assigned becomes exported;
+* `shopt -u extdebug` also switches `errtrace` and `functrace` off (and `-s` switches them on);
 * the hook that writes the file is itself run by the shell whose options the test case changed: under
-  `errexit` it ends at its first command that returns non-zero (`shopt -p extglob` does while the option
-  is off) and the test case then ends with status 1; under `noclobber` the redirection `>` refuses to
-  overwrite the state file of the previous test case (`writeState`).
-The parse-time behaviour of bash is the assumption of this model; the history
-`shopt -s extglob; g() { case $1 in +([0-9])) …; }`, then `shopt -u extglob` of the harness pool
-(harness/src/shellstate.rs, class `function-extglob`) runs it against real bash on every check.
+  `errexit` it ends at its first command that returns non-zero, and the test case then ends with that
+  status; under `noclobber` the redirection `>` refuses to overwrite the state file of the previous
+  test case.
+
+`persist` is the order as it is now (fixes e15e02e, 6fb091a, bb09a36, 75c64cd): `shopt -s extglob`, the
+functions, the aliases, the variables, and last the options (`shopt` before `set -o`). The earlier orders
+are kept (`persistOld`, `persistSetFirst`, `persistAliasesFirst`, `persistOptionsFirst`) with a witness
+each on which they lose state (Props/C12.lean).
 -/
 namespace Scrut.StateFile
 
@@ -32,54 +32,80 @@ structure Fn where
   needsExtglob : Bool
   deriving DecidableEq, Repr
 
+structure Var where
+  name : Nat
+  value : Nat
+  exported : Bool
+  deriving DecidableEq, Repr
+
 structure St where
   extglob : Bool
   /-- `shopt extdebug` -/
   extdebug : Bool := false
   /-- `set -o errtrace` (and `functrace`, which behaves the same) -/
   errtrace : Bool := false
+  /-- `set -o allexport` -/
+  allexport : Bool := false
   funcs : List Fn
-  vars : List (Nat × Nat)
+  /-- names of the aliases -/
+  aliases : List Nat := []
+  vars : List Var
   deriving DecidableEq, Repr
 
 inductive Line where
   | setExtglob (b : Bool)
   | setExtdebug (b : Bool)
   | setErrtrace (b : Bool)
+  | setAllexport (b : Bool)
   | defFn (f : Fn)
-  | setVar (k v : Nat)
+  | defAlias (name : Nat)
+  /-- `declare -x name=value` / `declare -- name=value` -/
+  | setVar (v : Var)
   deriving DecidableEq, Repr
 
-/-- `source state`: the lines are read in order; a function definition that needs `extglob` while
-it is off is a syntax error, and bash stops reading the file there -/
+/-- `source state`: the lines are read in order under the state the lines in front have made -/
 def source : St → List Line → St
   | s, [] => s
   | s, .setExtglob b :: r => source { s with extglob := b } r
   -- switching `extdebug` drags `errtrace` / `functrace` along
   | s, .setExtdebug b :: r => source { s with extdebug := b, errtrace := b } r
   | s, .setErrtrace b :: r => source { s with errtrace := b } r
+  | s, .setAllexport b :: r => source { s with allexport := b } r
   | s, .defFn f :: r =>
-    if f.needsExtglob && !s.extglob then s
+    -- a syntax error: bash stops reading the file
+    if (f.needsExtglob && !s.extglob) || s.aliases.contains f.name then s
     else source { s with funcs := s.funcs ++ [f] } r
-  | s, .setVar k v :: r => source { s with vars := s.vars ++ [(k, v)] } r
+  | s, .defAlias n :: r => source { s with aliases := s.aliases ++ [n] } r
+  | s, .setVar v :: r => source { s with vars := s.vars ++ [{ v with exported := v.exported || s.allexport }] } r
 
 /-- a new bash process -/
 def fresh : St := { extglob := false, funcs := [], vars := [] }
 
-/-- the state file as it is written now: `shopt -p`, `set +o`, `shopt -s extglob`, `declare -f`,
-`shopt -p extglob`, the variables -/
-def persist (s : St) : List Line :=
-  [.setExtdebug s.extdebug, .setExtglob s.extglob, .setErrtrace s.errtrace, .setExtglob true] ++
-    s.funcs.map .defFn ++ [.setExtglob s.extglob] ++ s.vars.map (fun kv => .setVar kv.1 kv.2)
+def optionLines (s : St) : List Line :=
+  [.setExtdebug s.extdebug, .setExtglob s.extglob, .setErrtrace s.errtrace, .setAllexport s.allexport]
 
-/-- the state file as it was written before fix e15e02e: options first, functions after them -/
+/-- the state file as it is written now: `shopt -s extglob`, `declare -f`, `alias -p`, the variables,
+`shopt -p`, `set +o` -/
+def persist (s : St) : List Line :=
+  [.setExtglob true] ++ s.funcs.map .defFn ++ s.aliases.map .defAlias ++ s.vars.map .setVar ++ optionLines s
+
+/-- the state file as it was written before fix e15e02e: options first, functions after them, no forced extglob -/
 def persistOld (s : St) : List Line :=
-  [.setExtglob s.extglob] ++ s.funcs.map .defFn ++ s.vars.map (fun kv => .setVar kv.1 kv.2)
+  [.setExtglob s.extglob] ++ s.funcs.map .defFn ++ s.vars.map .setVar
 
 /-- the order before fix 6fb091a: `set +o` in front of `shopt -p` -/
 def persistSetFirst (s : St) : List Line :=
   [.setErrtrace s.errtrace, .setExtdebug s.extdebug, .setExtglob s.extglob, .setExtglob true] ++
-    s.funcs.map .defFn ++ [.setExtglob s.extglob] ++ s.vars.map (fun kv => .setVar kv.1 kv.2)
+    s.funcs.map .defFn ++ [.setExtglob s.extglob] ++ s.vars.map .setVar
+
+/-- the order before fix bb09a36: the aliases in front of the functions -/
+def persistAliasesFirst (s : St) : List Line :=
+  [.setExtglob true] ++ s.aliases.map .defAlias ++ s.funcs.map .defFn ++ s.vars.map .setVar ++ optionLines s
+
+/-- the order before fix 75c64cd: the options in front of everything else -/
+def persistOptionsFirst (s : St) : List Line :=
+  optionLines s ++ [.setExtglob true] ++ s.funcs.map .defFn ++ [.setExtglob s.extglob] ++
+    s.aliases.map .defAlias ++ s.vars.map .setVar
 
 /-! ## the hook that writes the file -/
 
@@ -97,15 +123,23 @@ structure Cmd where
   status : Nat
   deriving DecidableEq, Repr
 
-/-- the commands of the sub-shell in order; `guarded`: `shopt -p extglob || true` (since fix 296e2dd) instead of
-`shopt -p extglob`, whose status is 1 while the option is off -/
-def hookCmds (guarded : Bool) (s : St) : List Cmd :=
-  [ ⟨[.setExtdebug s.extdebug, .setExtglob s.extglob], 0⟩,                 -- shopt -p
-    ⟨[.setErrtrace s.errtrace], 0⟩,                                         -- set +o
-    ⟨[.setExtglob true], 0⟩,                                                -- echo "shopt -s extglob"
-    ⟨s.funcs.map .defFn, 0⟩,                                                -- declare -f
-    ⟨[.setExtglob s.extglob], if guarded || s.extglob then 0 else 1⟩,       -- shopt -p extglob
-    ⟨s.vars.map (fun kv => .setVar kv.1 kv.2), 0⟩ ]                         -- declare -p | grep …
+/-- the commands of the sub-shell as they are now: every one of them returns 0 -/
+def hookCmds (s : St) : List Cmd :=
+  [ ⟨[.setExtglob true], 0⟩,                 -- echo "shopt -s extglob"
+    ⟨s.funcs.map .defFn, 0⟩,                 -- declare -f
+    ⟨s.aliases.map .defAlias, 0⟩,            -- alias -p
+    ⟨s.vars.map .setVar, 0⟩,                 -- declare -p | grep …
+    ⟨optionLines s, 0⟩ ]                     -- shopt -p; set +o
+
+/-- the commands between fixes e15e02e and 296e2dd: `shopt -p extglob` behind the functions, whose status is 1
+while the option is off -/
+def hookCmdsUnguarded (s : St) : List Cmd :=
+  [ ⟨optionLines s, 0⟩,
+    ⟨[.setExtglob true], 0⟩,
+    ⟨s.funcs.map .defFn, 0⟩,
+    ⟨[.setExtglob s.extglob], if s.extglob then 0 else 1⟩,
+    ⟨s.aliases.map .defAlias, 0⟩,
+    ⟨s.vars.map .setVar, 0⟩ ]
 
 /-- the sub-shell: under `errexit` it ends behind the first command that returns non-zero, with that status -/
 def runCmds (errexit : Bool) : List Cmd → List Line × Nat
@@ -114,15 +148,15 @@ def runCmds (errexit : Bool) : List Cmd → List Line × Nat
     if errexit && c.status != 0 then (c.out, c.status)
     else let (o, st) := runCmds errexit r; (c.out ++ o, st)
 
-/-- `( … ) > state` (`force = false`) or `( … ) >| state` (`force = true`, since fix 79ceed0), then `exit $code`:
-the state file afterwards and the exit status of the test case whose command ended with `code`.
-Under `noclobber` a plain `>` onto an existing file fails before the sub-shell runs; a failing sub-shell or
-redirection ends the hook under `errexit`, with status 1 (the statuses of this model are 0 and 1). -/
-def writeState (guarded force : Bool) (h : Hook) (s : St) (code : Nat) : Option (List Line) × Nat :=
+/-- `( … ) > state` (`force = false`) or `( … ) >| state` (`force = true`, since fix 79ceed0), then
+`exit $__SCRUT_EXIT_CODE`: the state file afterwards and the exit status of the test case whose command ended
+with `code`. Under `noclobber` a plain `>` onto an existing file fails before the sub-shell runs; a failing
+sub-shell or redirection ends the hook under `errexit` with its status (1 in this model). -/
+def writeState (cmds : List Cmd) (force : Bool) (h : Hook) (code : Nat) : Option (List Line) × Nat :=
   if h.noclobber && !force && h.old.isSome then
     (h.old, if h.errexit then 1 else code)
   else
-    let (lines, st) := runCmds h.errexit (hookCmds guarded s)
+    let (lines, st) := runCmds h.errexit cmds
     (some lines, if h.errexit && st != 0 then st else code)
 
 end Scrut.StateFile
